@@ -68,6 +68,10 @@ pub struct ConfigParts {
     /// Some("path") | Some("luau")
     pub bundle: Option<String>,
     pub bundle_excludes: Vec<String>,
+    /// path mode only: declare the source `here` = `.` (the project location: the
+    /// directory of the configuration file, or of the processed file when the
+    /// configuration is given as an object)
+    pub bundle_sources: bool,
     pub apply_to_files: Vec<String>,
     pub skip_files: Vec<String>,
     /// Some(path relative to the configuration file): `convert_require` from path requires
@@ -110,7 +114,11 @@ impl ConfigParts {
             fields.push(format!("\"generator\":{}", generator));
         }
         if let Some(mode) = &self.bundle {
-            let mut bundle = format!("\"require_mode\":\"{}\"", mode);
+            let mut bundle = if self.bundle_sources && mode == "path" {
+                "\"require_mode\":{\"name\":\"path\",\"sources\":{\"here\":\".\"}}".to_owned()
+            } else {
+                format!("\"require_mode\":\"{}\"", mode)
+            };
             if !self.bundle_excludes.is_empty() {
                 bundle.push_str(&format!(
                     ",\"excludes\":[{}]",
@@ -168,6 +176,7 @@ pub fn gen_config_parts(rng: &mut Rng, bundle: Option<&str>) -> ConfigParts {
         },
         bundle: bundle.map(str::to_owned),
         bundle_excludes: Vec::new(),
+        bundle_sources: false,
         apply_to_files: Vec::new(),
         skip_files: Vec::new(),
         convert_sourcemap: None,
@@ -357,6 +366,19 @@ pub struct SourceFile {
     /// writes requires of Lua files without their extension (`require("./x")`), so that
     /// resolution goes through the candidate list (x, x.luau, x.lua, x/init, ...)
     pub bare: bool,
+    /// writes its requires through the `here` source of the path require mode
+    /// (`require("here/<path from the project location>")`); never required by another
+    /// file, for the same reason as `use_alias`
+    pub via_source: bool,
+}
+
+/// What the `here` source of the path require mode stands for.
+#[derive(Clone, Debug, PartialEq, Eq)]
+pub enum SourceBase {
+    /// the configuration is an object: the directory of the file being processed
+    RequirerDir,
+    /// the directory of the configuration file
+    Dir(String),
 }
 
 #[derive(Clone, Debug)]
@@ -371,6 +393,19 @@ pub struct Project {
     pub aliases: Vec<AliasDef>,
     /// requires are converted to Roblox instance paths through a sourcemap (no bundling)
     pub convert: bool,
+    /// set once the invocation (where the configuration lives) is known
+    pub source_base: SourceBase,
+}
+
+/// `require("here/...")` for the file `to`, `here` being the directory `base`.
+/// darklua normalises the require string before it looks the source name up, so only
+/// files below `base` can be reached; others are required relatively from `from`.
+pub fn source_require(base: &str, from: &str, to: &str) -> String {
+    let rel = relative_require(&join(base, "_"), to);
+    match rel.strip_prefix("./") {
+        Some(below) => format!("here/{}", below),
+        None => relative_require(from, to),
+    }
 }
 
 impl Project {
@@ -386,6 +421,11 @@ impl Project {
             .map(|to| {
                 if src.use_alias {
                     require_text(&src.path, to, &self.aliases)
+                } else if src.via_source {
+                    match &self.source_base {
+                        SourceBase::RequirerDir => source_require(parent(&src.path), &src.path, to),
+                        SourceBase::Dir(dir) => source_require(dir, &src.path, to),
+                    }
                 } else if src.bare {
                     bare_require(&src.path, to)
                 } else {
@@ -437,6 +477,8 @@ pub struct ProjectKnobs {
     /// a bundled module may live above the working directory (`../outside/lib.lua`);
     /// not on the real file system, where the scratch directory is the working directory
     pub allow_outside: bool,
+    /// files that require through a `sources` entry of the path require mode
+    pub allow_source_alias: bool,
 }
 
 pub fn gen_project(rng: &mut Rng, knobs: &ProjectKnobs) -> Project {
@@ -477,6 +519,7 @@ pub fn gen_project(rng: &mut Rng, knobs: &ProjectKnobs) -> Project {
             requires: Vec::new(),
             use_alias: false,
             bare: false,
+            via_source: false,
         });
     }
     let bundle = if knobs.allow_bundle && rng.chance(2, 5) {
@@ -595,6 +638,7 @@ pub fn gen_project(rng: &mut Rng, knobs: &ProjectKnobs) -> Project {
                     requires: Vec::new(),
                     use_alias: false,
                     bare: false,
+                    via_source: false,
                 });
             }
         };
@@ -614,6 +658,44 @@ pub fn gen_project(rng: &mut Rng, knobs: &ProjectKnobs) -> Project {
             if s.path == nested_user {
                 s.use_alias = true;
                 s.requires = vec![nested_lib.clone()];
+            }
+        }
+    }
+    if knobs.allow_source_alias && bundle.as_deref() == Some("path") && !input_is_file && rng.chance(1, 3) {
+        // two files in different directories requiring through the `here` source: what
+        // `here` is must be worked out per file when the configuration has no location
+        let targets: Vec<String> = sources
+            .iter()
+            .filter(|s| !s.use_alias && !(is_module_folder_file(&s.path)))
+            .map(|s| s.path.clone())
+            .collect();
+        if !targets.is_empty() {
+            let deep_lib = join(&input_dir, "sub/deep/srclib.lua");
+            if !sources.iter().any(|s| s.path == deep_lib) {
+                sources.push(SourceFile {
+                    path: deep_lib.clone(),
+                    body_index: rng.below(corpus::BODIES.len()),
+                    version: 0,
+                    requires: Vec::new(),
+                    use_alias: false,
+                    bare: false,
+                    via_source: false,
+                });
+            }
+            for (n, user) in [join(&input_dir, "srcuser.lua"), join(&input_dir, "sub/deep/srcuser2.lua")].into_iter().enumerate() {
+                if sources.iter().any(|s| s.path == user) {
+                    continue;
+                }
+                let target = if n == 1 { deep_lib.clone() } else { rng.pick(&targets).clone() };
+                sources.push(SourceFile {
+                    path: user,
+                    body_index: rng.below(corpus::BODIES.len()),
+                    version: 0,
+                    requires: vec![target],
+                    use_alias: false,
+                    bare: false,
+                    via_source: true,
+                });
             }
         }
     }
@@ -696,6 +778,7 @@ pub fn gen_project(rng: &mut Rng, knobs: &ProjectKnobs) -> Project {
         bundle,
         aliases,
         convert,
+        source_base: SourceBase::Dir(String::new()),
     }
 }
 
